@@ -460,9 +460,8 @@ func suiteText(tier string, seed uint64, model string) *Report {
 			c, _ := y[1].(jp.Child)
 			return hx([]byte(string(c)))
 		})
-		// identical, or (bracket form, invalid UTF-8 only) with the invalid bytes replaced by U+FFFD
-		if back != hx([]byte(s)) && back != hx([]byte(sanitizeGo(s))) {
-			rep.Add(Disagreement{Case: hx([]byte(s)), Where: "ParseString(C(key).String())", Kind: "impl-vs-spec:key-roundtrip", Impl: back, Spec: hx([]byte(sanitizeGo(s)))})
+		if back != hx([]byte(s)) {
+			rep.Add(Disagreement{Case: hx([]byte(s)), Where: "ParseString(C(key).String())", Kind: "impl-vs-spec:key-roundtrip", Impl: back, Spec: hx([]byte(s))})
 		}
 	}
 	distinct := map[string]bool{}
